@@ -684,6 +684,16 @@ class AsyncFIXConnection:
                 self.log.warning(
                     "Getting SEQUENCERESET(GapFillFlag=Y) while not filling gaps"
                 )
+            msg_seq_num = int(seqreset_msg[FTag.MsgSeqNum])
+            if (
+                msg_seq_num != self._session.next_num_in
+                or int(seqreset_msg[FTag.NewSeqNo]) <= msg_seq_num
+            ):
+                # A gap fill is a part of the sequenced stream: too high MsgSeqNum is
+                #   a gap (ResendRequest), too low is a duplicate, both must not move
+                #   next_num_in, as well as a malformed NewSeqNo
+                self.log.warning(f"SEQUENCERESET(GapFillFlag=Y) ignored: {seqreset_msg}")
+                return False
         else:
             self.log.info(f"SequenceReset received from peer: {seqreset_msg}")
 
@@ -697,6 +707,7 @@ class AsyncFIXConnection:
         self._journaler.set_seq_num(
             self._session, next_num_in=int(seqreset_msg[FTag.NewSeqNo])
         )
+        return True
 
     async def _finalize_message(self, msg: FIXMessage, raw_msg: bytes):
         """Final message processing (MsgSeqNum checks / journaling).
@@ -799,10 +810,11 @@ class AsyncFIXConnection:
                 await self._state_set(ConnectionState.LOGON_INITIAL_RECV)
                 self._connection_role = ConnectionRole.ACCEPTOR
 
+            is_seqreset_applied = True
             if msg.msg_type == FMsg.LOGON:
                 await self._process_logon(msg)
             elif msg.msg_type == FMsg.SEQUENCERESET:
-                await self._process_seqreset(msg)
+                is_seqreset_applied = await self._process_seqreset(msg)
             elif msg.msg_type == FMsg.LOGOUT:
                 await self._process_logout(msg)
 
@@ -812,6 +824,9 @@ class AsyncFIXConnection:
 
             msg_seq_num = int(msg[FTag.MsgSeqNum])
             is_valid_msg_num = await self._check_seqnum_gaps(msg_seq_num)
+            if not is_seqreset_applied:
+                # out of sequence gap fill: nothing to finalize (see _process_seqreset)
+                is_valid_msg_num = False
 
             if msg.msg_type == FMsg.RESENDREQUEST:
                 await self._process_resend(msg)
